@@ -76,7 +76,7 @@ rc::Gen<Op> genOp() {
     auto valGen = gen::weightedOneOf<uint16_t>({{3, gen::element<uint16_t>(0, 0xFFFF, 1, 0x8000, 0x40C0, 0x0400, 0x0600, 0x00FF, 7, 8, 9)},
                                                 {2, gen::map(vf::range<int>(0, 16), [](int b) { return (uint16_t)(1u << b); })},
                                                 {4, vf::u16b()}});
-    return gen::map(gen::tuple(gen::weightedElement<int>({{30, Write}, {2, ReadCmd}, {2, HostSend}, {2, HostSetSem}, {1, DmaStart}, {2, HostQuery}}), offGen, valGen,
+    return gen::map(gen::tuple(gen::weightedElement<int>({{30, Write}, {2, ReadCmd}, {2, HostSend}, {4, HostSetSem}, {1, DmaStart}, {2, HostQuery}}), offGen, valGen,
                                gen::weightedOneOf<uint16_t>({{3, gen::just<uint16_t>(0)}, {3, gen::just<uint16_t>(1)}, {2, vf::range<uint16_t>(2, 64)}}),
                                vf::range<uint16_t>(0, 64)),
                     [](std::tuple<int, uint16_t, uint16_t, uint16_t, uint16_t> t) {
@@ -183,6 +183,19 @@ vf::Result check(const Case& cs) {
                 break;
             }
             case HostSetSem: {
+                if (op.off % 3 == 1) { // host acknowledges bits of the DSP -> CPU semaphore (the DSP reads that semaphore back at 0x0CC)
+                    trace += "hack=" + vf::hex(op.v) + " ";
+                    s.t->ClearSemaphore(op.v);
+                    m.sem_d2c &= (uint16_t)~op.v;
+                    vf::klass("host ClearSemaphore / MaskSemaphore between register accesses");
+                    break;
+                }
+                if (op.off % 3 == 2) { // host masks the DSP -> CPU semaphore: its own mask, no DSP-side register shows it
+                    trace += "hmask=" + vf::hex(op.v) + " ";
+                    s.t->MaskSemaphore(op.v);
+                    vf::klass("host ClearSemaphore / MaskSemaphore between register accesses");
+                    break;
+                }
                 trace += "hsem=" + vf::hex(op.v) + " ";
                 bool was = m.sem_flag();
                 s.t->SetSemaphore(op.v);
